@@ -383,6 +383,15 @@ class NumFunc:
                 return ('app', 'S', 'nsign', [a])
         if fname == 'float' and len(args) == 1:
             return self.expr(args[0])
+        if fname in ('np.min', 'np.max') and len(args) == 1 and isinstance(args[0], ast.Call) \
+                and self.dotted(args[0].func) == 'np.vstack' and len(args[0].args) == 1 \
+                and isinstance(args[0].args[0], ast.Tuple) and len(args[0].args[0].elts) == 2 \
+                and len(node.keywords) == 1 and node.keywords[0].arg == 'axis' \
+                and isinstance(node.keywords[0].value, ast.Constant) and node.keywords[0].value.value == 0:
+            a, b = [self.expr(e) for e in args[0].args[0].elts]
+            if ty(a) == ty(b) == 'V':
+                return ('app', 'V', 'vminc' if fname == 'np.min' else 'vmaxc', [a, b])
+            self.err(node, "componentwise min/max of non-vectors")
         if fname == 'np.all' and len(args) == 1 and isinstance(args[0], ast.Compare):
             return self.compare(args[0], vector_all=True)
         if fname in ('matrix_multiplication', '_matrix_multiplication'):
@@ -531,6 +540,24 @@ class NumFunc:
         body = self.expr(hits[0].value)
         return hits[0], params, body
 
+    def translate_compare_const(self):
+        """the constant on the right of the unique comparison `<left> <op> <const>` inside func"""
+        fn = self.src.find_def(self.spec['func'])
+        want_op = {'<': ast.Lt, '<=': ast.LtE, '>': ast.Gt, '>=': ast.GtE}[self.spec['op']]
+        hits = [n for n in ast.walk(fn) if isinstance(n, ast.Compare) and len(n.ops) == 1
+                and ast.unparse(n.left) == self.spec['left']]
+        if len(hits) != 1:
+            raise TranslateError(f"{self.src.relpath}: expected exactly one comparison with left side "
+                                 f"{self.spec['left']!r} in {self.spec['func']}, found {len(hits)}")
+        node = hits[0]
+        if not isinstance(node.ops[0], want_op):
+            raise TranslateError(f"{self.src.relpath}:{node.lineno}: comparison operator is "
+                                 f"{type(node.ops[0]).__name__}, signature table says {self.spec['op']}")
+        c = self.expr(node.comparators[0])
+        if c[0] != 'const':
+            self.err(node, "comparison bound is not a numeric literal")
+        return node, [], c
+
     def translate_return_expr(self):
         """function whose body is docstring + single return"""
         return self.translate_function()
@@ -546,6 +573,8 @@ def emit_numeric(repo, out, specs, errors):
             nf = NumFunc(src, spec)
             if spec.get('kind', 'function') == 'assign_rhs':
                 node, params, body = nf.translate_assign_rhs()
+            elif spec.get('kind') == 'compare_const':
+                node, params, body = nf.translate_compare_const()
             else:
                 node, params, body = nf.translate_function()
             params = params + nf.extra_params
@@ -604,7 +633,29 @@ def emit_string_dict(repo, spec):
     return text, {'name': spec['name'], 'where': where, 'sha256': sha}
 
 
-EXTRACTORS = {'string_dict': emit_string_dict}
+def emit_int_compare_const(repo, spec):
+    src = Source(repo, spec['file'])
+    fn = src.find_def(spec['func'])
+    want_op = {'<': ast.Lt, '<=': ast.LtE, '>': ast.Gt, '>=': ast.GtE}[spec['op']]
+    hits = [n for n in ast.walk(fn) if isinstance(n, ast.Compare) and len(n.ops) == 1
+            and ast.unparse(n.left) == spec['left']]
+    if len(hits) != 1:
+        raise TranslateError(f"{spec['file']}: expected exactly one comparison with left side {spec['left']!r} "
+                             f"in {spec['func']}, found {len(hits)}")
+    node = hits[0]
+    if not isinstance(node.ops[0], want_op):
+        raise TranslateError(f"{spec['file']}:{node.lineno}: comparison operator is {type(node.ops[0]).__name__}, "
+                             f"signature table says {spec['op']}")
+    c = node.comparators[0]
+    if not (isinstance(c, ast.Constant) and isinstance(c.value, int) and not isinstance(c.value, bool)):
+        raise TranslateError(f"{spec['file']}:{node.lineno}: bound is not an integer literal")
+    where, sha = src.stamp(node)
+    text = (f"(* {spec['name']} <- {where} sha256={sha} : {ast.unparse(node)} *)\n"
+            f"Definition {spec['name']} : Z := {c.value}.\n")
+    return text, {'name': spec['name'], 'where': where, 'sha256': sha}
+
+
+EXTRACTORS = {'string_dict': emit_string_dict, 'int_compare_const': emit_int_compare_const}
 
 
 def register_extractor(kind, fn):
